@@ -1,0 +1,94 @@
+//go:build verif
+
+package container
+
+import (
+	"os/exec"
+
+	"github.com/criyle/go-sandbox/pkg/unixsocket"
+	"github.com/criyle/go-sandbox/pkg/verifhook"
+)
+
+// verification hooks (see pkg/verifhook): events at the linearization points of the
+// host <-> container protocol and named gates in front of the racing selects
+
+func verifCmd(c *exec.Cmd) { c.Env = append(c.Env, verifhook.ChildEnv()...) }
+
+func verifBegin() { verifhook.Begin() }
+
+func verifCmdKind(c *cmd) string {
+	switch c.Cmd {
+	case cmdPing:
+		return "ping"
+	case cmdOpen:
+		return "open"
+	case cmdDelete:
+		return "delete"
+	case cmdReset:
+		return "reset"
+	case cmdExecve:
+		return "exec"
+	case cmdOk:
+		return "ok"
+	case cmdKill:
+		return "kill"
+	case cmdConf:
+		return "conf"
+	case cmdSymlink:
+		return "symlink"
+	}
+	return "unknown"
+}
+
+func verifReplyKind(r *reply, msg unixsocket.Msg) string {
+	switch {
+	case r.Error != nil:
+		return "err"
+	case r.ExecReply != nil:
+		return "result"
+	case r.BatchErrors != nil:
+		return "batch"
+	case msg.Cred != nil:
+		return "pid"
+	}
+	return "ack"
+}
+
+// verifEndCmd / verifEndReply close a verifBegin section around socket.SendMsg
+func verifEndCmd(side string, c *cmd, err error) {
+	if err != nil {
+		verifhook.End(side, "senderr", "k", verifCmdKind(c))
+		return
+	}
+	verifhook.End(side, "sent", "k", verifCmdKind(c))
+}
+
+func verifEndReply(side string, r *reply, msg unixsocket.Msg, err error) {
+	if err != nil {
+		verifhook.End(side, "senderr", "k", verifReplyKind(r, msg))
+		return
+	}
+	verifhook.End(side, "sent", "k", verifReplyKind(r, msg), "nfd", len(msg.Fds))
+}
+
+func verifRecvCmd(side string, c *cmd, err error) {
+	if err != nil {
+		verifhook.Event(side, "recverr")
+		return
+	}
+	verifhook.Event(side, "recvd", "k", verifCmdKind(c))
+}
+
+func verifRecvReply(side string, r *reply, msg unixsocket.Msg, err error) {
+	if err != nil {
+		verifhook.Event(side, "recverr")
+		return
+	}
+	verifhook.Event(side, "recvd", "k", verifReplyKind(r, msg))
+}
+
+func verifEvent(side, name string, kv ...any) { verifhook.Event(side, name, kv...) }
+
+func verifPoint(name string) { verifhook.Point(name) }
+
+func verifCmdEvent(side, name string, c *cmd) { verifhook.Event(side, name, "k", verifCmdKind(c)) }
